@@ -267,6 +267,59 @@ def interleave(E, R, kind):
         _real_ckd(E, R, False)
 
 
+def interleave_same(E, R, public):
+    """two threads working on the SAME node: bulk child generation (operation A) is pre-empted once while the other
+    thread derives a single child of that node (operation B).  A's result is exactly the children of its own interval,
+    in order; B's is its own child."""
+    _real_ckd(E, R, False)           # children via the contract: what is under test is the bookkeeping around them
+    k, kb = cm.sym_scalar(E, "k")
+    c = E.bytes("c", 32)
+    a = E.bv("a", 31, hi=2 ** 31 - 4)
+    j = E.bv("j", 31)
+    node = R.bip32.PubKeyNode(key=E.H.sec(k), chain_code=c) if public else R.bip32.PrvKeyNode(key=kb, chain_code=c)
+    if E.symbolic:
+        from sx.instrument import __sx_call__ as _call          # through the dispatcher, so that the ckd contract applies
+        op_b = lambda: _call(node.ckd, j)
+    else:
+        op_b = lambda: node.ckd(j)
+    ra, rb = E.preempt(lambda: node.generate_children((a, a + 3)), op_b)
+    if isinstance(ra, Raised) or isinstance(rb, Raised) or ra is None or rb is None:
+        E.fail("interleaved requests on one node: bulk generation returns exactly the children of its interval, in order")
+        return "raised"
+    E.check(len(ra) == 3, "interleaved requests on one node: bulk generation returns exactly the children of its interval, in order")
+    got = [[n.index, n.key if public else (n.key if len(n.key) == 32 else n.key[1:]), n.chain_code] for n in list(ra)[:3]]
+    exp = []
+    for t in range(3):
+        kk, cc, _ = hw.derive(E, k, c, [a + t])
+        exp.append([a + t, E.H.sec(kk) if public else ser(kk, 32), cc])
+    E.check_eq(got, exp, "interleaved requests on one node: bulk generation returns exactly the children of its interval, in order")
+    kj, cj, _ = hw.derive(E, k, c, [j])
+    E.check_eq([rb.index, rb.key, rb.chain_code], [j, E.H.sec(kj) if public else ser(kj, 32), cj],
+               "interleaved requests on one node: the single derivation returns its own child")
+    return "ok"
+
+
+def after_generate(E, R, purpose):
+    """a paper-wallet generation followed by a by-path lookup of a PREFIX of the account path (and of a sibling account) on
+    the same wallet and on a second wallet: shared parse results / caches must not leak the account of the earlier request"""
+    w, k, c = hw.mk_wallet(E, R, False)
+    account = E.bv("account", 31)
+    d = E.run(w.generate, account, (0, 0))
+    if isinstance(d, Raised):
+        return "invalid-bip85"
+    w2 = R.paper_wallet.PaperWallet(master=R.bip32.PrvKeyNode(key=w.master.key, chain_code=w.master.chain_code), testnet=False)
+    for ww in (w, w2):
+        for tail, idxs in (("", [purpose + HARD, HARD]), ("/7'", [purpose + HARD, HARD, 7 + HARD])):
+            s = "m/%d'/0'%s" % (purpose, tail)
+            n = E.run(ww.by_path, s)
+            if isinstance(n, Raised):
+                E.fail("by_path after generate works")
+                continue
+            E.check_eq(_child_fields(n), _ref_fields(E, k, c, idxs), "by_path after a paper-wallet generation returns the node of the path asked for")
+            E.check_eq(E.run(n.__repr__) if E.symbolic else str(n), s, "by_path after a paper-wallet generation: node prints the path asked for")
+    return "ok"
+
+
 def generate_twice(E, R, ln1, ln2, same_account):
     from props import C06
     return C06.generate_twice(E, R, False, ln1, ln2, same_account)
@@ -318,6 +371,12 @@ def cases(tier):
     for kind in ("prv", "pub"):
         cs.append(Case("interleave[%s]" % kind, "interleave", dict(kind=kind), weight=60, max_paths=20000,
                        need=("interleaved derivations: every result equals the stateless reference",)))
+    for pub in (False, True):
+        cs.append(Case("interleave_same[public=%s]" % pub, "interleave_same", dict(public=pub), weight=30, max_paths=20000,
+                       need=("interleaved requests on one node: bulk generation returns exactly the children of its interval, in order",)))
+    for purpose in (44, 84):
+        cs.append(Case("after_generate[%d]" % purpose, "after_generate", dict(purpose=purpose), weight=40, max_paths=5000,
+                       need=("by_path after a paper-wallet generation returns the node of the path asked for",)))
     for pub in (False, True):
         cs.append(Case("same_key[public=%s]" % pub, "same_key", dict(public=pub), weight=20,
                        need=("child depends on its own parent's key AND chain code, not on earlier derivations",)))
